@@ -14,6 +14,10 @@ quiescence and records the frames written, `connection_state.current`, the event
 Finding classes (stable):  c05-select-rsp-unchecked (F-4), c05-separate-ignored (F-5); anything else: c05-state, c05-response,
 c05-gate, c05-deliver, c05-accept-race, c05-stall.
 
+  loopback         : a handful of enable/disable/connect/select histories on the REAL TcpServerConnection / TcpClientConnection (raw socket
+                     peer on 127.0.0.1): disable while idle / connected / selected, twice in a row, peer close, both modes; the session
+                     must answer Select.req, Linktest.req and data as on a fresh endpoint (`run_loopback`).
+
   queued dispatch  : a data block that waited in the dispatch queue (busy `message_received` handler) is dispatched after the peer has
                      closed — "never delivered while not SELECTED" also holds in NOT CONNECTED (`datq` as last input of a history, and the
                      faithful two-frames/peer-close/release scenario `run_slow_handler`).
@@ -23,6 +27,7 @@ from __future__ import annotations
 import itertools
 import json
 import os
+import socket
 import struct
 import sys
 import threading
@@ -732,6 +737,256 @@ def run_slow_handler(active: bool):
     return line, rec, at_release
 
 
+# ------------------------------------------------------------------------------------------- the real TCP classes on loopback
+class LoopbackFailure(Exception):
+    def __init__(self, cls, what):
+        super().__init__(what)
+        self.cls, self.what = cls, what
+
+
+def wait_until(pred, what=None, cls="c05-stall"):
+    """logical condition with the load-scaled hang bound; raises when `what` is given and the condition never holds"""
+    end = time.time() + bound()
+    while not pred():
+        if time.time() > end:
+            if what is None:
+                return False
+            raise LoopbackFailure(cls, f"{what} (not within {bound():.0f} s)")
+        time.sleep(0.002)
+    return True
+
+
+def bounded_call(fn, what):
+    th = threading.Thread(target=fn, daemon=True)
+    th.start()
+    wait_until(lambda: not th.is_alive(), f"{what} did not return")
+
+
+class RawPeer:
+    """the remote entity: a plain socket speaking HSMS frames built and parsed here"""
+
+    def __init__(self, sock):
+        self.sock = sock
+        self.sock.setsockopt(socket.IPPROTO_TCP, socket.TCP_NODELAY, 1)
+        self.sock.settimeout(0.05)
+        self.buf = b""
+        self.frames = []
+        self.eof = False
+
+    def send(self, data: bytes):
+        self.sock.sendall(data)
+
+    def pump(self):
+        try:
+            chunk = self.sock.recv(65536)
+            if not chunk:
+                self.eof = True
+            self.buf += chunk
+        except (TimeoutError, BlockingIOError, InterruptedError):
+            pass
+        except OSError:
+            self.eof = True
+        while len(self.buf) >= 4 and len(self.buf) >= 4 + struct.unpack(">L", self.buf[:4])[0]:
+            n = 4 + struct.unpack(">L", self.buf[:4])[0]
+            self.frames += parse_frames(self.buf[:n])
+            self.buf = self.buf[n:]
+
+    def read_until(self, pred, what, cls="c05-response"):
+        def ready():
+            self.pump()
+            return pred(self.frames) or self.eof
+        wait_until(ready, what, cls)
+        if not pred(self.frames):
+            raise LoopbackFailure(cls, f"{what}: the endpoint closed the connection instead; frames so far {[(f['stype'], f['sys']) for f in self.frames]}")
+
+    def with_sys(self, system):
+        return [f for f in self.frames if f["sys"] == system]
+
+    def close(self):
+        try:
+            self.sock.close()
+        except OSError:
+            pass
+
+
+class Loopback:
+    """a REAL HsmsProtocol on the REAL TcpServerConnection / TcpClientConnection, the peer a raw socket on 127.0.0.1"""
+
+    def __init__(self, active: bool):
+        self.active = active
+        self.listener = None
+        if active:
+            self.listener = socket.socket()
+            self.listener.setsockopt(socket.SOL_SOCKET, socket.SO_REUSEADDR, 1)
+            self.listener.bind(("127.0.0.1", 0))
+            self.listener.listen(4)
+            self.listener.settimeout(0.05)
+            self.port = self.listener.getsockname()[1]
+        else:
+            probe = socket.socket()
+            probe.bind(("127.0.0.1", 0))
+            self.port = probe.getsockname()[1]
+            probe.close()
+        mode = HsmsConnectMode.ACTIVE if active else HsmsConnectMode.PASSIVE
+        self.p = HsmsProtocol(HsmsSettings(address="127.0.0.1", port=self.port, connect_mode=mode, t5=0.5, t6=3600, t3=3600))
+        self.delivered = []
+        self.p.events.message_received += lambda data: self.delivered.append(data["message"].header.system)
+        self.base = 5000
+        self.log = []
+
+    def conn(self):
+        return CONN.get(self.p.connection_state.current, "?")
+
+    # ---- the endpoint's side
+    def enable(self):
+        self.log.append("enable")
+        bounded_call(self.p.enable, "enable()")
+
+    def disable(self):
+        self.log.append(f"disable[{self.conn()}]")
+        bounded_call(self.p.disable, f"disable() in {self.conn()}")
+        wait_until(lambda: self.conn() == "NC", "the session is not NOT CONNECTED after disable()", "c05-state")
+
+    # ---- the peer's side
+    def connect(self) -> RawPeer:
+        self.log.append("connect")
+        holder = []
+
+        def attempt():
+            try:
+                if self.active:
+                    sock, _ = self.listener.accept()
+                else:
+                    sock = socket.create_connection(("127.0.0.1", self.port), timeout=0.2)
+                holder.append(sock)
+                return True
+            except OSError:
+                return False
+        wait_until(attempt, "no TCP connection with the enabled endpoint", "c05-state")
+        peer = RawPeer(holder[0])
+        wait_until(lambda: self.conn() != "NC", "the session stays NOT CONNECTED although the TCP connection exists", "c05-state")
+        return peer
+
+    def peer_close(self, peer):
+        self.log.append("peer-close")
+        peer.close()
+        wait_until(lambda: self.conn() == "NC", "the session is not NOT CONNECTED after the peer closed", "c05-state")
+
+    def data_not_selected(self, peer):
+        """data message while NOT SELECTED: Reject.req reason 4 with its system bytes, never delivered"""
+        self.log.append("data-not-selected")
+        self.base += 10
+        system = self.base
+        peer.send(frame(0, system, 0x81, 1, session=0))
+        peer.read_until(lambda fs: any(f["sys"] == system for f in fs), f"data message sys={system} while {self.conn()} got no answer", "c05-gate")
+        got = peer.with_sys(system)
+        if not (len(got) == 1 and got[0]["stype"] == 7 and got[0]["b3"] == 4) or system in self.delivered:
+            raise LoopbackFailure("c05-gate", f"data message sys={system} while not SELECTED answered by {[(f['stype'], f['b3']) for f in got]}, "
+                                  f"delivered={system in self.delivered}; expected exactly one Reject.req reason 4, not delivered")
+
+    def session(self, peer):
+        """select (the active endpoint asks, the passive one is asked), then Select.req / Linktest.req / data as the peer sends them"""
+        self.log.append("session")
+        self.base += 10
+        b = self.base
+        if self.active:
+            peer.read_until(lambda fs: any(f["stype"] == 1 for f in fs), "the active endpoint sent no Select.req on the new connection")
+            req = [f for f in peer.frames if f["stype"] == 1][-1]
+            peer.send(frame(2, req["sys"]))
+            wait_until(lambda: self.conn() == "SEL", "not SELECTED after the Select.rsp (status 0) for the endpoint's open Select.req", "c05-state")
+        # the Linktest.req is the fence: answers come in order, so when its response is here every answer to the Select.req is here too
+        peer.send(frame(1, b + 1))
+        peer.send(frame(5, b + 2))
+        peer.read_until(lambda fs: any(f["sys"] == b + 2 for f in fs), f"Select.req sys={b + 1} / Linktest.req sys={b + 2} in {self.conn()} got no answer")
+        sel, lnk = peer.with_sys(b + 1), peer.with_sys(b + 2)
+        if [f["stype"] for f in sel] != [2]:
+            raise LoopbackFailure("c05-response", f"Select.req sys={b + 1} answered by {[(f['stype'], f['sys']) for f in sel]}, expected exactly one Select.rsp")
+        if [f["stype"] for f in lnk] != [6]:
+            raise LoopbackFailure("c05-response", f"Linktest.req sys={b + 2} answered by {[(f['stype'], f['sys']) for f in lnk]}, expected exactly one Linktest.rsp")
+        wait_until(lambda: self.conn() == "SEL", f"state after Select.req/Select.rsp is {self.conn()}, expected SELECTED", "c05-state")
+        peer.send(frame(0, b + 3, 0x81, 1, session=0))
+        wait_until(lambda: (b + 3) in self.delivered, f"well-formed data message sys={b + 3} while SELECTED was not delivered", "c05-deliver")
+        if self.delivered.count(b + 3) != 1:
+            raise LoopbackFailure("c05-deliver", f"data message sys={b + 3} delivered {self.delivered.count(b + 3)} times")
+
+    def shutdown(self):
+        try:
+            th = threading.Thread(target=self.p.disable, daemon=True)
+            th.start()
+            th.join(2.0)
+            if self.listener is not None:
+                self.listener.close()
+        except Exception:  # noqa: BLE001
+            pass
+
+
+def lb_passive_idle_disable(lb):
+    lb.enable(); lb.disable(); lb.enable()                       # local disable while NOT CONNECTED, no peer ever connected
+    peer = lb.connect(); lb.data_not_selected(peer); lb.session(peer)
+    lb.disable()                                                 # local disable while SELECTED
+    peer.close()
+    lb.enable(); peer = lb.connect(); lb.session(peer); peer.close()
+
+
+def lb_passive_twice(lb):
+    lb.enable(); lb.disable(); lb.disable(); lb.enable(); lb.enable()   # twice in a row, both ways
+    peer = lb.connect(); lb.data_not_selected(peer)
+    lb.disable()                                                 # local disable while connected, NOT SELECTED
+    peer.close()
+    lb.enable(); peer = lb.connect(); lb.session(peer)
+    lb.peer_close(peer)                                          # peer close, the endpoint listens again
+    peer = lb.connect(); lb.data_not_selected(peer); lb.session(peer); peer.close()
+
+
+def lb_active(lb):
+    lb.enable(); peer = lb.connect(); lb.session(peer)
+    lb.disable(); lb.disable()                                   # while SELECTED, then again
+    peer.close()
+    lb.enable(); peer = lb.connect(); lb.session(peer)
+    lb.peer_close(peer)                                          # peer close: the active endpoint connects again
+    peer = lb.connect(); lb.session(peer); peer.close()
+
+
+def lb_active_not_selected(lb):
+    lb.enable(); peer = lb.connect(); lb.data_not_selected(peer)  # the endpoint's Select.req stays unanswered
+    lb.disable()                                                 # local disable while NOT SELECTED with an open Select.req
+    peer.close()
+    lb.enable(); peer = lb.connect(); lb.session(peer); peer.close()
+
+
+LOOPBACK = [("passive: disable while idle, then while selected", False, lb_passive_idle_disable),
+            ("passive: disable/enable twice, disable while connected, peer close", False, lb_passive_twice),
+            ("active: disable while selected (twice), peer close", True, lb_active),
+            ("active: disable while not selected", True, lb_active_not_selected)]
+
+
+def run_loopback():
+    """the scenarios run side by side (own ports): -> [(name, active, log, failure or None)]"""
+    out = []
+
+    def one(name, active, script):
+        lb = Loopback(active)
+        fail = None
+        try:
+            script(lb)
+        except LoopbackFailure as exc:
+            fail = (exc.cls, exc.what)
+        except Exception as exc:  # noqa: BLE001
+            fail = ("c05-stall", f"loopback scenario died: {type(exc).__name__}: {exc}")
+        finally:
+            lb.shutdown()
+        out.append((name, active, list(lb.log), fail))
+    threads = [threading.Thread(target=one, args=x, daemon=True) for x in LOOPBACK]
+    for t in threads:
+        t.start()
+    for t in threads:
+        t.join(8 * bound())
+    for (name, active, _), t in zip(LOOPBACK, threads):
+        if t.is_alive():
+            out.append((name, active, ["(did not finish)"], ("c05-stall", "loopback scenario did not finish")))
+    return out
+
+
 # ------------------------------------------------------------------------------------------- generators
 CORE = ["con", "pcl", "dib", "die", "rx.selreq.U.0", "rx.desreq.U.0", "rx.lnkreq.U.0", "rx.selrsp.U.0", "rx.desrsp.U.0",
         "rx.sepreq.U.0", "rx.rejreq.U.0", "dat.cw.U", "dat.cn.U"]
@@ -1016,6 +1271,16 @@ def main():
                 res.traces_validated += 1
                 if m != show_step(rec):
                     res.disagree("block dispatched after the close (busy handler) vs Model.Hsms.step rxDataQueued", {"case": case, "line": line}, m, show_step(rec))
+
+    # ---- enable / disable / connect histories through the real TCP classes (loopback), both modes
+    t0 = time.time()
+    for name, active, log, fail in run_loopback():
+        res.count(("loopback", name), sample={"loopback": name, "steps": log})
+        res.bump("loopback", f"{name}: {'ok' if fail is None else fail[0]}")
+        if fail is not None:
+            res.violate(fail[0], f"real TcpServerConnection/TcpClientConnection, {name}: after {', '.join(log)}: {fail[1]}",
+                        {"kind": "loopback", "name": name, "active": active, "steps": log}, expected="the session answers as on a fresh endpoint")
+    res.notes.append(f"{len(LOOPBACK)} loopback scenarios on the real TCP connection classes in {time.time() - t0:.1f}s (direct oracle only)")
 
     res.dump(a.out)
     sys.stdout.flush()
